@@ -70,7 +70,7 @@ fn ctor_of(f: &FTy, params: &[String]) -> (Ctor, Vec<String>) {
         Ctor::Ptr
     } else if s.starts_with("PhantomData<") {
         Ctor::Phantom
-    } else if s.starts_with("Wrapper<") {
+    } else if s.starts_with("Wrapper<") || s.starts_with("crate::prelude::homonyms::") {
         Ctor::Wrapper
     } else {
         Ctor::Concrete
